@@ -75,6 +75,11 @@ PRESERVING = {
     'RL4': ('C01', 'C09', 'C12', 'C15', 'C16', 'C20'),
     'RL5': ('C08', 'C18'),
     'RL6': ('C04', 'C06', 'C09', 'C12', 'C16', 'C17', 'C18'),
+    # a last probe of 12 (DESIGN 8.17); RM1b, on which C13/C14/C20 still report a false violation, is kept apart in
+    # preserving_open/ and is not part of the expected-silent set
+    'RM1': ('C13', 'C14', 'C15', 'C19', 'C20'),
+    'RM3': ('C01', 'C02', 'C06', 'C10', 'C11', 'C12', 'C14'),
+    'RM4': ('C01', 'C09', 'C12', 'C15', 'C16', 'C20'),
 }
 # refactorings on which a rule is allowed to end without a verdict (exit 2, "not recognised"): the form is outside what the
 # engine follows; it must still never report a violation there
@@ -82,7 +87,8 @@ NO_VERDICT_OK = {('RG4c', 'C15'), ('RI4c', 'C15'), ('RI2b', 'C12'), ('RI3a', 'C0
                  ('RJ1a', 'C13'), ('RJ1a', 'C14'), ('RJ2a', 'C12'), ('RJ2b', 'C12'), ('RJ4c', 'C15'), ('RJ5a', 'C08'),
                  ('RK2a', 'C12'), ('RK2b', 'C12'), ('RK3c', 'C02'), ('RK3c', 'C06'), ('RK3c', 'C10'), ('RK4d', 'C15'),
                  ('RL1c', 'C19'), ('RL2c', 'C12'), ('RL2d', 'C02'), ('RL2d', 'C12'), ('RL2d', 'C14'), ('RL3c', 'C01'), ('RL3d', 'C02'),
-                 ('RL3d', 'C06'), ('RL3d', 'C10'), ('RL3d', 'C11'), ('RL4a', 'C15'), ('RL4d', 'C12'), ('RL4d', 'C15'), ('RL4d', 'C16')}
+                 ('RL3d', 'C06'), ('RL3d', 'C10'), ('RL3d', 'C11'), ('RL4a', 'C15'), ('RL4d', 'C12'), ('RL4d', 'C15'), ('RL4d', 'C16'),
+                 ('RM4a', 'C16'), ('RM4c', 'C15'), ('RM4d', 'C15')}
 
 
 def run_property(prop, tier, only=None):
